@@ -90,6 +90,32 @@ def text(t):
     return [[type(o).__name__, txt(o.clean_vector()), list(o.scores()), txt(o.as_json()["vectorString"])] for o in res]
 
 
+def also_native(fn, *args):
+    """Python 2 has two string types and users pass either: the call is repeated with the last argument as a
+    native (byte) str -- UTF-8 encoded and, where possible, Latin-1 encoded (not valid UTF-8) when it is not
+    ASCII -- and must give the same record.  A difference is put INTO the record, so that the transcript
+    differs from the reference interpreter's.  (A byte-string VECTOR with non-ASCII bytes is finding F5 and
+    is not repeated here: only ASCII vectors / RH strings, any text.)"""
+    r = fn(*args)
+    if not PY2:
+        return r
+    s = args[-1]
+    ascii_only = all(ord(ch) < 128 for ch in s)
+    if fn is not text and not ascii_only:
+        return r
+    for enc in ("utf-8", "latin-1"):
+        try:
+            b = s.encode(enc)
+        except Exception:
+            continue
+        r2 = fn(*(args[:-1] + (b,)))
+        if r2 != r:
+            return {"native_str_argument_differs": enc, "unicode_argument": r, "native_argument": r2}
+        if ascii_only:
+            break
+    return r
+
+
 class Cap(object):
     def __init__(self):
         self.buf = []
@@ -157,9 +183,9 @@ with io.open(corpus_path, encoding="utf-8") as f:
     C = json.load(f)
 R = {"python": list(sys.version_info[:3]), "cvss_version": txt(cvss.__version__),
      "exports": sorted(txt(n) for n in dir(cvss) if not n.startswith("_"))}
-R["construct"] = [construct(v, s) for v, s in C["construct"]]
-R["rh"] = [rh(v, s) for v, s in C["rh"]]
-R["text"] = [text(t) for t in C["text"]]
+R["construct"] = [also_native(construct, v, s) for v, s in C["construct"]]
+R["rh"] = [also_native(rh, v, s) for v, s in C["rh"]]
+R["text"] = [also_native(text, t) for t in C["text"]]
 R["ask"] = [ask(v, a, ans) for v, a, ans in C["ask"]]
 R["cli"] = [cli(argv, ans) for argv, ans in C["cli"]]
 with io.open(out_path, "w", encoding="utf-8") as f:
